@@ -1,4 +1,5 @@
 """C01 — conversion accepts exactly the members of the type and returns the exactly-typed image."""
+import itertools
 from .. import entrypoints, env, model, genval, gentypes
 from ..common import observe, same_outcome, build_type
 from ..ctx import short
@@ -29,7 +30,7 @@ ANCHORS = [
     'classes:PaneConverter.try_convert', 'classes:PaneConverter.try_convert_struct',
     'classes:PaneConverter.try_convert_tuple',
 ]
-MIN_COUNTERS = {'quick': {'decided_accept': 3000, 'decided_reject': 3000, 'key_collision_cases': 100}}
+MIN_COUNTERS = {'quick': {'decided_accept': 3000, 'decided_reject': 3000, 'key_collision_cases': 100, 'constructor_placements': 10000}}
 
 
 def check_case(ctx, sub, i, ty, T, v, cls_):
@@ -106,6 +107,44 @@ def kind_twin(v, rng, depth=0):
     return None
 
 
+_kserial = itertools.count()
+
+
+def check_constructor(ctx, sub, i, T, v, tydesc):
+    """A field annotated T is one more door into T: K(v), K(f=v) and x.__replace__(f=v) convert v exactly as pane.convert(v, T) does
+    (same verdict, same stored value) - whatever the exact type of v is."""
+    mk = observe(lambda: type(f"K01_{next(_kserial)}", (env.PaneBase,), {'__annotations__': {'f': T}, '__module__': __name__}))
+    if mk.kind != 'value':
+        ctx.count('constructor_holder_not_built')
+        return True
+    K = mk.val
+    ref = observe(env.convert, v, T)
+    if ref.kind == 'escape':
+        return True
+    first = None
+    for label in ('K(v)', 'K(f=v)', 'x.__replace__(f=v)'):
+        if label == 'x.__replace__(f=v)':
+            if first is None:
+                continue
+            got = observe(lambda: first.__replace__(f=v))
+        else:
+            got = observe((lambda: K(v)) if label == 'K(v)' else (lambda: K(f=v)))
+        ctx.count('constructor_placements')
+        ctx.case(('constructor', label, ref.kind, got.kind), nontrivial=True)
+        ok = got.kind == ref.kind
+        why = f"{ref.kind} vs {got.kind}"
+        if ok and got.kind == 'value':
+            first = got.val
+            ok, why = deep_typed_eq(ref.val, got.val.f)
+            if ok:
+                ok, why = deep_typed_eq(got.val.f, ref.val)
+        if not ok:
+            ctx.violation('model-vs-pane', sub, i, {'type': tydesc, 'value': short(v, 300), 'entry_point': label + ' with the field annotated by the type',
+                                                    'pane.convert(v, T)': ref.brief(), 'this_way_in': got.brief(), 'why': why}, mech=f"entry-point-differs:constructor")
+            return False
+    return True
+
+
 def gen_case(ctx, rng):
     depth = rng.choice((1, 2, 2, 3)) if ctx.tier == 'quick' else rng.choice((1, 2, 3, 3, 4, 5, 6))
     ty = gentypes.gen_type(rng, depth)
@@ -135,6 +174,8 @@ def run(ctx):
                     # verdict and value depend on T and v only - not on which door v came through (a Converter used directly, the
                     # dataclass classmethods, the readers fed the same document as text)
                     entrypoints.check_parse_agreement(ctx, 'model-vs-pane', 'main', i, T, v, out, describe(ty), is_dc=ty.k == 'dc')
+                if out is not None and out.kind != 'escape' and rng.random() < 0.15:
+                    check_constructor(ctx, 'main', i, T, v, describe(ty))
                 if out is not None and out.kind == 'value' and rng.random() < 0.5:
                     # straight after an accepted value, through the SAME type object (and so the same converter): its twin of another
                     # kind (1 -> 1.0 -> True ...), which compares and hashes equal to it - a per-converter memo keyed by the raw value
@@ -176,6 +217,27 @@ def run(ctx):
                     break
         except Exception as e:
             ctx.crash('generic-nesting', i, e)
+
+    # directed: values that already have exactly the annotated (bare) type but are not their own converted image
+    import enum as _enum
+    import typing as _t
+
+    class _Shade(_enum.Enum):
+        DARK = 'dark'
+
+    class _Pt(env.PaneBase):
+        x: int = 0
+
+    BARE = ((list, [{1, 2}]), (list, [(1, 2), [3]]), (list, [_Shade.DARK]), (list, [_Pt(3)]), (dict, {'a': (1, 2)}), (dict, {'a': {1}}), (dict, {'p': _Pt(1)}),
+            (tuple, ([1], {2})), (tuple, (_Shade.DARK, (1,))), (_t.List, [(1,)]), (_t.Dict, {'k': {'z'}}), (_t.Any, [(1, 2)]), (_t.Any, {'a': {3}}), (set, {(1, 2)}),
+            (_t.List[_t.Any], [{1}]), (_t.Dict[str, _t.Any], {'k': (1,)}), (_Pt, _Pt.make_unchecked(x='nope')), (_Pt, _Pt(4)), (_t.Optional[_Pt], _Pt.make_unchecked(x=None)))
+    if ctx.shard == 0:
+        for j, (TT, vv) in enumerate(BARE):
+            try:
+                ctx.count('constructor_directed_cases')
+                check_constructor(ctx, 'constructor-directed', j, TT, vv, short(TT, 100))
+            except Exception as e:
+                ctx.crash('constructor-directed', j, e)
 
     # directed: mappings whose data keys differ but convert to equal typed keys ('1.0' / '1.00' as Decimal, 'a/b' / 'a//b' as a path)
     from ..tyast import Ty as _Ty
